@@ -15,6 +15,15 @@ LEVEL_NOTE = 'Trusted: the oracle (plain Python products), ENGINE-SPEC.'
 TECHNIQUE = 'contract + z3 lemmas + static AST obligations + bounded stand-in on small panels'
 DESIGN_REF = 'DESIGN.md section 3 / C09'
 
+REPLAYS = {'*': """
+import os, subprocess, sys, json
+env = dict(os.environ, C09_SKIP_NEGATIVE='1')
+r = subprocess.run([sys.executable, '/verif/bounded/c09_panel.py', 'quick', '0'], capture_output=True, text=True, env=env)
+d = json.loads(r.stdout.strip().splitlines()[-1])
+violated = bool(d['failures'])
+detail = str(d['failures'][:1])[:1500]
+"""}
+
 
 def lemmas():
     """z3 lemmas about a column sorted by individual id (what justifies [min, max] as the row range)."""
@@ -71,7 +80,9 @@ def static_map():
         'one-entry-per-distinct-id': l_uniq is not None,
         'range-is-min-max-of-the-rows-with-that-id': l_rng is not None and l_rows is not None and l_rows < l_rng,
     }
-    return [Extra(f'C09:static:build_panel_map:{k}', 'static', 'discharged' if ok else 'failed', 'ast-static', round(time.time() - t0, 4),
+    # the analysis recognises the CURRENT shape of build_panel_map; another shape is not a defect by itself: `unknown`, and the
+    # replay (the bounded panel harness incl. the append-after-panel history) decides whether it is a violation
+    return [Extra(f'C09:static:build_panel_map:{k}', 'static', 'discharged' if ok else 'unknown', 'ast-static', round(time.time() - t0, 4),
                   '' if ok else f'pattern not found in build_panel_map (lines: sort {l_sort}, renumber {l_renum}, unique {l_uniq}, rows {l_rows}, range {l_rng})')
             for k, ok in checks.items()]
 
